@@ -224,7 +224,7 @@ fn gen(t: &mut Tape, _tier: Tier) -> Scenario {
     sc.note = note;
     sc.set_b("input", input);
     sc.set_i("rk", [RK_SLICE, RK_SIM, RK_BUFREADER][t.below(3) as usize]);
-    sc.set_i("bufcap", t.range(1, 100));
+    sc.set_i("bufcap", crate::gen::draw_bufcap(t, 100));
     sc.set_l("src_script", gen::draw_script(t));
     if t.below(4) == 0 {
         // arbitrary bytes AND a misbehaving environment: I/O faults at random calls
